@@ -355,6 +355,7 @@ class Driver:
                 if case.get('read_state_while_paused'):
                     obs['state_while_alive'] = _rep(_guard(lambda: w.user_state))
                     obs['alive_while_paused'] = _guard(w.is_alive)
+                    obs['has_error_while_paused'] = _rep(_guard(lambda: w.has_error))
                     obs['state_setter'] = _guard(lambda: setattr(w, 'user_state', 'parent-was-here'))
                 if ev['action'] == 'terminate':
                     t0 = time.time()
